@@ -392,4 +392,15 @@ pub proof fn lemma_madctl_setters(b: u8, c: ColorOrder, o: Orientation, r: Refre
     lemma_bits_u8(b, spec_orientation_bits(o), spec_refresh_bits(r), spec_color_bits(c));
 }
 
+/// C10/C14: re-orienting the byte of (c, o, r) gives the byte of (c, o2, r).
+pub proof fn lemma_with_orientation_replaces(c: ColorOrder, o: Orientation, o2: Orientation, r: RefreshOrder)
+    ensures spec_with_orientation(spec_madctl(c, o, r), o2) == spec_madctl(c, o2, r),
+{
+    lemma_field_bits(c, o, r);
+    lemma_field_bits(c, o2, r);
+    let x = spec_orientation_bits(o); let x2 = spec_orientation_bits(o2); let y = spec_refresh_bits(r); let z = spec_color_bits(c);
+    assert(((x | y | z) & !0xE0u8) | x2 == x2 | y | z) by(bit_vector)
+        requires x & !0xE0u8 == 0, x2 & !0xE0u8 == 0, y & !0x14u8 == 0, z & !0x08u8 == 0;
+}
+
 } // mod vf
